@@ -45,14 +45,30 @@ def walk(n, fn):
             walk(v, fn)
 
 
-def find_all(n, pred):
+def find_all(n, pred, skip_pats=False):
     out = []
+    if not skip_pats:
 
-    def f(x):
-        if pred(x):
-            out.append(x)
+        def f(x):
+            if pred(x):
+                out.append(x)
 
-    walk(n, f)
+        walk(n, f)
+        return out
+
+    def w(x):
+        if isinstance(x, dict):
+            if pred(x):
+                out.append(x)
+            for k, v in x.items():
+                if k in ("pat", "params"):
+                    continue
+                w(v)
+        elif isinstance(x, list):
+            for v in x:
+                w(v)
+
+    w(n)
     return out
 
 
